@@ -7,6 +7,16 @@ ROOT = os.path.dirname(os.path.dirname(os.path.abspath(__file__)))
 TECH = "symbolic execution of the real geckolib code over z3 (proxy objects, bit-vectors/arrays/FP), exhaustive path exploration within stated bounds, counterexample replay on the unmodified code"
 
 CHECKS = {
+    "C01": dict(
+        text="Real GeckoAsyncStructure.get on a virtual event loop and real GeckoStructure.retry_request/"
+             "_on_status_block_received, fed by the segment chain the real GeckoSimulator produces for the very request "
+             "the client sent; spa block, client block, start and length symbolic, and per attempt an arbitrary sequence "
+             "of delivered datagrams (each any segment of the chain: loss, duplication, re-ordering). Success => requested "
+             "bytes are the spa's and no foreign byte (skolem index); failure => block object untouched; <= retry count "
+             "requests with fresh sequence numbers; fault-free twin succeeds for every (start,length).",
+        note="Bounded: <=2 segments/2 deliveries per attempt/2 attempts (quick), <=3/3/2 (thorough); fault-free twin for "
+             "length <=200 (quick) / <=1024 (thorough). Timeout scaled to 3 polls (config data, not code).",
+        ref="5/C01"),
     "C02": dict(
         text="Every distinct item signature of the 151 shipped cfg/log tables (class, type, width, bit position, labels, "
              "MaxItems, mask, RW) is decided once through the real _set_value/async_set_value/_get_value of the shipped "
@@ -43,6 +53,15 @@ CHECKS = {
              "fold of the updates (array equality by skolem index); exactly one STATQ per STATP, protocol-range sequence.",
         note="Bounded: <=2 (quick) / <=3 (thorough) messages of 0..3 changes, refresh <=3 bytes, pending list <=2.",
         ref="5/C05"),
+    "C12": dict(
+        text="Real GeckoAsyncFacade.__init__/_scan_outputs and the threaded GeckoFacade._on_connected/scan_outputs on blocks "
+             "whose output-configuration items are symbolic over every label and out-of-range byte (one output of every "
+             "label-list class, two outputs of the same class; thorough adds class pairs and triples), for one "
+             "representative of every inventory-relevant table signature. Oracle: independent set-based rule in table "
+             "order; pump demand/mode lists, classes, sensors, distinct keys/unique ids, lookup by key.",
+        note="Bounded in the number of simultaneously symbolic outputs (2 quick / 3 thorough); other bytes zero. "
+             "PYTHONHASHSEED fixed by ./run. Known findings: three table families cannot build a facade at all.",
+        ref="5/C12"),
     "C14": dict(
         text="Real GeckoTempStructAccessor and GeckoWaterHeater under IEEE-754 double semantics (z3 FloatingPoint): "
              "decode formula, enc(dec(r)) == r for all 65536 raw words in both units (sync and async path), decimal "
